@@ -39,14 +39,15 @@ def main():
             info = chplugin.install(contracts=o.contracts)
             out["stubs_and_models"] = {k: v for k, v in info.items() if k != "done"}
             hlib.STATE["symbolic"] = True
+            ppt = o.per_path_timeout or max(10.0, o.timeout * scale / 3.0)
             for mode in modes.split(","):
                 if mode.startswith("witness:"):
                     hlib.STATE["witness"] = mode.split(":", 1)[1]
-                    r = chcore.analyze(o.fn, "main", timeout=o.timeout * scale, per_path_timeout=o.per_path_timeout)
+                    r = chcore.analyze(o.fn, "main", timeout=o.timeout * scale, per_path_timeout=ppt)
                 else:
                     hlib.STATE["witness"] = None
                     r = chcore.analyze(o.fn, mode, timeout=(o.timeout * scale if mode == "main" else min(o.timeout * scale, 60)),
-                                       per_path_timeout=o.per_path_timeout)
+                                       per_path_timeout=ppt)
                 out["results"][mode] = r
     except BaseException as e:  # noqa
         out["error"] = "%s: %s" % (type(e).__name__, e)
